@@ -570,7 +570,8 @@ void verif_case(Rng & rng, long idx, const std::string &) {
         std::string textA = RA.render();
         File b = genFile(rng, true, false);
         Mut m;
-        int mode = (int)rng.below(3);
+        int mode = (int)rng.below(4);
+        if (mode == 3) { m.cls = "missing_sizes"; m.arg = (int)rng.below(3); }             // B lacks a size line: the size of A must not be inherited
         if (mode == 0) { b.sn.clear(); b.an.clear(); b.on.clear(); }                       // B declares numbers only
         if (mode <= 1 && !b.stmts.empty()) { m.cls = "unknown_name"; m.arg = 5 + 7 * (int)rng.below(50); m.decoy = false; m.target = (long)rng.below(b.stmts.size()); } // B uses a name of A
         Renderer RB{rng, b, m, rng.coin()};
